@@ -32,8 +32,9 @@ FEATURES = ["n_nodes_per_face", "edge_node_connectivity", "face_edge_connectivit
             "antimeridian_face_indices", "hole_edge_indices", "ball_tree", "kd_tree", "normalize"]
 SOURCES = ["topo_ll", "topo_ll", "topo_ll", "topo_llxyz", "topo_llxyz", "exodus_src", "ugrid_src",
            "topo_edges", "xyz_only", "file_ugrid", "file_ugrid", "file_exodus", "file_scrip",
-           "ctor_nospec", "ctor_nospec", "ctor_none", "ctor_spec", "from_dataset_spec", "scrip_src", "face_vertices"]
-GLOBAL_ATTR_SOURCES = ("ctor_nospec", "ctor_none", "ctor_spec", "from_dataset_spec", "ugrid_src", "exodus_src",
+           "ctor_nospec", "ctor_nospec", "ctor_none", "ctor_spec", "from_dataset_spec", "scrip_src", "face_vertices",
+           "cart_centres", "cart_centres", "sph_centres"]
+GLOBAL_ATTR_SOURCES = ("cart_centres", "sph_centres", "ctor_nospec", "ctor_none", "ctor_spec", "from_dataset_spec", "ugrid_src", "exodus_src",
                        "scrip_src", "xyz_only", "file_ugrid", "file_exodus", "file_scrip")
 DERIVATIONS = [None, None, None, None, "copy", "isel", "isel", "dual"]
 MESHFILES = ["ugrid/geoflow-small/grid.nc", "ugrid/outCSne30/outCSne30.ug", "exodus/mixed/mixed.exo",
@@ -238,6 +239,14 @@ def fixed_scenarios():
                 "actions": [["mat", 0, "node_x"], ["enc", 0, "exodus", False]]})
     out.append({"grids": [{"mesh": mixed, "source": "xyz_only", "radius": 1.0}],
                 "actions": [["enc", 0, "exodus", False], ["enc", 0, "ugrid", False]]})
+    # centre coordinates supplied in ONE system only (Cartesian face/edge centres without lon/lat ones, and
+    # the reverse), through Grid(ds) and from_dataset
+    for src in ("cart_centres", "sph_centres"):
+        for mesh in (tri, mixed):
+            for ga_ in ({}, {"title": "t"}):
+                out.append({"grids": [{"mesh": mesh, "source": src, "radius": 1.0, "global_attrs": ga_}],
+                            "actions": [["enc", 0, "ugrid", False], ["enc", 0, "exodus", False], ["enc", 0, "scrip", False],
+                                        ["enc", 0, "ugrid", True]]})
     # every public construction path, with global attributes on the source dataset
     ga = {"title": "t", "version": 3, "levels": [1, 2, 3]}
     for src in ("ctor_nospec", "ctor_none", "ctor_spec", "from_dataset_spec", "scrip_src", "face_vertices"):
@@ -385,6 +394,26 @@ class Impl:
         gattrs = dict(gd.get("global_attrs") or {})
         if src == "face_vertices" and bool((t == FILL).any()):
             src = "topo_ll"                       # from_face_vertices takes a rectangular vertex array
+        if src in ("cart_centres", "sph_centres"):
+            ds = self.ugrid_convention_ds(lon, lat, t, gattrs)
+            rows = [[int(x) for x in r if x != FILL] for r in t.tolist()]
+            es = sorted({(min(a, b), max(a, b)) for r in rows for a, b in zip(r, r[1:] + r[:1])})
+            fc = np.array([unit(pts[r].sum(axis=0) / gd.get("radius", 1.0)) for r in rows])
+            ec = np.array([unit((pts[a] + pts[b]) / gd.get("radius", 1.0)) for a, b in es])
+            ds["edge_node_connectivity"] = xr.DataArray(np.array(es, dtype=np.intp), dims=["n_edge", "two"],
+                                                        attrs={"cf_role": "edge_node_connectivity", "start_index": 0})
+            if src == "cart_centres":
+                for k, ax in enumerate("xyz"):
+                    ds["face_" + ax] = xr.DataArray(fc[:, k].copy(), dims=["n_face"])
+                    ds["edge_" + ax] = xr.DataArray(ec[:, k].copy(), dims=["n_edge"])
+            else:
+                ds["face_lon"] = xr.DataArray(np.degrees(np.arctan2(fc[:, 1], fc[:, 0])), dims=["n_face"])
+                ds["face_lat"] = xr.DataArray(np.degrees(np.arcsin(np.clip(fc[:, 2], -1, 1))), dims=["n_face"])
+                ds["edge_lon"] = xr.DataArray(np.degrees(np.arctan2(ec[:, 1], ec[:, 0])), dims=["n_edge"])
+                ds["edge_lat"] = xr.DataArray(np.degrees(np.arcsin(np.clip(ec[:, 2], -1, 1))), dims=["n_edge"])
+            if len(gattrs) % 2:
+                return ux.Grid.from_dataset(ds, source_grid_spec="custom")
+            return ux.Grid(ds)
         if src == "ctor_nospec":
             return ux.Grid(self.ugrid_convention_ds(lon, lat, t, gattrs))
         if src == "ctor_none":
@@ -1169,7 +1198,7 @@ def main(ck):
                       "on a mixed and a uniform grid; all 16 ordered pairs of equipment levels across two grids) + "
                       "random histories (30% follow the shared-template pattern big-grid-then-other-grid): 1-3 grids (uniform tetra/cube/octa/icosa tilings, "
                       "mixed 3..8-gon tilings grown by split/subdivide/stellate/dual, partial, 1-2 face grids, "
-                      "extra padding columns, 15% with 1-3 unreferenced nodes at the start/middle/end of the node table; nodes on poles, on lon=+-180/0; every public construction path: Grid(ds) with/without/None source_grid_spec, from_dataset with a custom spec, from_topology, from_face_vertices, open_grid on UGRID/Exodus/SCRIP datasets and files, results of copy()/isel()/get_dual(); source datasets carrying extra global attributes: str, numbers, lists, None), up to 6 "
+                      "extra padding columns, 15% with 1-3 unreferenced nodes at the start/middle/end of the node table; nodes on poles, on lon=+-180/0; every public construction path: Grid(ds) with/without/None source_grid_spec, datasets whose face/edge centres are supplied in one coordinate system only (Cartesian without lon/lat, and the reverse), from_dataset with a custom spec, from_topology, from_face_vertices, open_grid on UGRID/Exodus/SCRIP datasets and files, results of copy()/isel()/get_dual(); source datasets carrying extra global attributes: str, numbers, lists, None), up to 6 "
                       "materialisations (20 derived quantities) and encodes of any grid in any format through "
                       "to_xarray or encode_as, then a final encode; every encode is checked directly and through a "
                       "netCDF file; non-trivial = history with >= 2 actions; distinct = distinct scenario")
